@@ -48,6 +48,8 @@ class Env:
         self.fault = fault          # (site, round) or None; sites: ready, send, flush, read_err, read_closed, rx_closed
         self.round = 0; self.quota = {}; self.registered = set()
         self.flushed = 0
+        self.script = {'rx': [], 'ready': [], 'send': [], 'flush': [], 'stream': [], 'tick': []}   # answers in call order, for the native replay
+        self.rounds_polled = 0
         # which environment dimensions are free in this scenario (the others take their benign value): keeps the
         # product of choices per scenario small; every dimension is free in some scenario family
         self.policy = dict({'arrive': 'free', 'sink': 'free', 'flush': 'ready', 'reply': 'free', 'tick': 'never'}, **(policy or {}))
@@ -57,7 +59,13 @@ class Env:
 
     def pending(self, source):
         """an event source answered Pending: the task's waker is registered there"""
-        self.registered.add(source); return Enum('Poll', 1)
+        self.registered.add(source)
+        key = {'task-channel': 'rx', 'backend-stream': 'stream'}.get(source)
+        if key: self.script[key].append('pending')
+        return Enum('Poll', 1)
+
+    def say(self, key, what):
+        self.script[key].append(what)
 
     def fault_now(self, site):
         return self.fault is not None and self.fault[0] == site and self.fault[1] == self.round
@@ -74,13 +82,13 @@ class Rx(PyObj):
     def m_poll_next(self, e, s, cx):
         env = self.env
         if not env.pending_tasks:
-            if env.fault_now('rx_closed'): return Enum('Poll', 0, [NONE()])
+            if env.fault_now('rx_closed'): env.say('rx', 'closed'); return Enum('Poll', 0, [NONE()])
             return env.pending('task-channel')
         q = env.budget('arrive', len(env.pending_tasks), 'arrivals') if env.policy['arrive'] == 'free' else len(env.pending_tasks) + env.quota.get('arrived', 0)
         done = env.quota.setdefault('arrived', 0)
         if done < q:
             env.quota['arrived'] = done + 1
-            t = env.pending_tasks.pop(0); env.received.append(t)
+            t = env.pending_tasks.pop(0); env.received.append(t); env.say('rx', 'task:%d' % t.tag)
             return Enum('Poll', 0, [Some(t)])
         return env.pending('task-channel')
 
@@ -92,22 +100,24 @@ class Sink(PyObj):
     def __init__(self, env): self.env = env
     def m_poll_ready(self, e, s, cx):
         env = self.env
-        if env.fault_now('ready'): return Enum('Poll', 0, [Err(io_error())])
+        if env.fault_now('ready'): env.say('ready', 'err'); return Enum('Poll', 0, [Err(io_error())])
         q = env.budget('ready', 2, 'sink-ready') if env.policy['sink'] == 'free' else 2      # 0, 1 or any number of items
         done = env.quota.setdefault('readied', 0)
         if q == 2 or done < q:
-            env.quota['readied'] = done + 1
+            env.quota['readied'] = done + 1; env.say('ready', 'ready')
             return Enum('Poll', 0, [Ok(mk_unit())])
+        env.say('ready', 'pending')
         return env.pending('backend-sink')
     def m_start_send(self, e, s, item):
         env = self.env
-        if env.fault_now('send'): return Err(io_error())
-        env.wire.append(un(item)); return Ok(mk_unit())
+        if env.fault_now('send'): env.say('send', 'err'); return Err(io_error())
+        env.wire.append(un(item)); env.say('send', 'ok'); return Ok(mk_unit())
     def m_poll_flush(self, e, s, cx):
         env = self.env
-        if env.fault_now('flush'): return Enum('Poll', 0, [Err(io_error())])
+        if env.fault_now('flush'): env.say('flush', 'err'); return Enum('Poll', 0, [Err(io_error())])
         if env.policy['flush'] == 'ready' or env.budget('flush', 1, 'flush-ready') == 1:
-            env.flushed = len(env.wire); return Enum('Poll', 0, [Ok(mk_unit())])
+            env.flushed = len(env.wire); env.say('flush', 'ok'); return Enum('Poll', 0, [Ok(mk_unit())])
+        env.say('flush', 'pending')
         return env.pending('backend-sink')
     def m_as_mut(self, e, s): return s
 
@@ -117,15 +127,15 @@ class Stream(PyObj):
     def __init__(self, env): self.env = env
     def m_poll_next(self, e, s, cx):
         env = self.env
-        if env.fault_now('read_err'): return Enum('Poll', 0, [Some(Err(io_error()))])
-        if env.fault_now('read_closed'): return Enum('Poll', 0, [NONE()])
+        if env.fault_now('read_err'): env.say('stream', 'err'); return Enum('Poll', 0, [Some(Err(io_error()))])
+        if env.fault_now('read_closed'): env.say('stream', 'closed'); return Enum('Poll', 0, [NONE()])
         outstanding = len(env.wire) - env.replied
         if outstanding <= 0 or env.policy['reply'] == 'none': return env.pending('backend-stream')
         q = env.budget('reply', outstanding, 'replies')
         done = env.quota.setdefault('replied', 0)
         if done < q:
             env.quota['replied'] = done + 1
-            req = env.wire[env.replied]; env.replied += 1
+            req = env.wire[env.replied]; env.replied += 1; env.say('stream', 'reply:%d' % req.tag)
             return Enum('Poll', 0, [Some(Ok(Pkt(req.tag, 'reply')))])
         return env.pending('backend-stream')
 
@@ -140,19 +150,27 @@ def run_conn(e, env, handler, retry_state, strategy, rounds):
                           Ref(Cell(Struct('BatchStats', [Struct('Atomic', [0]), Struct('Atomic', [0])])), 'Arc'), strat, 1024, dur, dur, dur])
     cell = Cell(fut)
     e.pending_hook = lambda src: env.registered.add(src)
+    base_hook = e.env_hook
+    def hook(label, k):
+        v = base_hook(label, k)
+        if label == 'tick': env.say('tick', 'tick' if v else 'pending')
+        return v
+    e.env_hook = hook
     for _ in range(rounds):
-        env.begin_round()
+        env.begin_round(); env.rounds_polled += 1
         r = e.poll(Ref(cell))
         if r.variant == 1 and not env.registered: env.lost_wakeup = env.round
         if r.variant == 0:
+            e.env_hook = base_hook
             res = un(r.f[0].v)
             if res.variant == 0: return 'ok', None
             tup = un(res.f[0].v)
             return 'err', (un(tup.f[0].v), un(tup.f[1].v))
+    e.env_hook = base_hook
     return 'pending', None
 
 
-def conn_oracle(ctx, e, name, tasks, env1, env2, handler, outcome, final_retry):
+def conn_oracle(ctx, e, name, tasks, env1, env2, handler, outcome, final_retry, rp=None):
     """items for require_all: matching, exactly-once, order, no silence"""
     items = []
     def wit(m=None):
@@ -185,7 +203,7 @@ def conn_oracle(ctx, e, name, tasks, env1, env2, handler, outcome, final_retry):
         for t in received:
             n = len(t.results) + (1 if any(t is x for x in retry_tasks) else 0)
             items.append(('failed-exchange-is-answered', 'C08/request-lost-after-connection-error/' + name, n == 1, wit))
-    ctx.require_all(e, items)
+    ctx.require_all(e, items, replay=rp)
 
 
 FAULT_SITES = ['ready', 'send', 'flush', 'read_err', 'read_closed']
@@ -203,6 +221,7 @@ def backend_conn(ctx, job):
         fault = job['fault']
         env1 = Env(e, tasks[:job['first']], fault, job.get('policy'))
         env1.expected_order = tasks[:job['first']]
+        envs = [env1]
         out = run_conn(e, env1, handler, NONE(), strategy, rounds)
         env2 = None; final_retry = None
         if out[0] == 'err':
@@ -218,6 +237,7 @@ def backend_conn(ctx, job):
                 if env2 is not None: env1.received += prev.received
                 env2 = Env(e, tasks[job['first']:] if nconn == 1 else [], job.get('fault2'), job.get('policy'))
                 env2.expected_order = retry_tasks + (tasks[job['first']:] if nconn == 1 else [])
+                envs.append(env2)
                 out2 = run_conn(e, env2, handler, final_retry, strategy, rounds)
                 nconn += 1
                 env2.received = retry_tasks + env2.received
@@ -226,8 +246,14 @@ def backend_conn(ctx, job):
             if job.get('persistent'):
                 left = isinstance(final_retry, Enum) and final_retry.variant == 1
                 ctx.require_all(e, [('failing-exchange-ends-with-an-error-reply', 'C08/request-retried-forever/' + job['name'], not left,
-                                     lambda m=None: {'scenario': job['name'], 'connections': nconn, 'results': {repr(t): [k for k, v in t.results] for t in tasks}})])
-        conn_oracle(ctx, e, job['name'], tasks, env1, env2, handler, out, final_retry)
+                                     lambda m=None: {'scenario': job['name'], 'connections': nconn, 'results': {repr(t): [k for k, v in t.results] for t in tasks}})],
+                                replay=lambda m=None: (None if any('tick' in en.script['tick'] for en in envs) else
+                                                       {'kind': 'rust-test', 'filter': 'verif_replay_conn', 'spec': {'persistent': True, 'conns': [{'rounds': en.rounds_polled, 'script': en.script} for en in envs]}}))
+        def rp(m=None):
+            if strategy != 'Disabled' or any('tick' in en.script['tick'] for en in envs): return None     # timers are not scripted natively
+            return {'kind': 'rust-test', 'filter': 'verif_replay_conn', 'spec': {'persistent': bool(job.get('persistent')),
+                    'conns': [{'rounds': en.rounds_polled, 'script': en.script} for en in envs]}}
+        conn_oracle(ctx, e, job['name'], tasks, env1, env2, handler, out, final_retry, rp)
         return 1
     res = ctx.explore('handle_conn %s' % job['name'], run, engine_setup=setup, max_paths=200000)
     ctx.ops += len(res) * rounds
